@@ -35,8 +35,10 @@ def _kw(r, kind, name, flags=True):
         kw["phi"] = r.choice([0, 0, 0.5, -1.0, 30, 90, 1.5707963267948966])
         if flags and r.random() < 0.3:
             kw["deg"] = r.random() < 0.8
-        if flags and kind.startswith("ac_") and r.random() < 0.25:
+        if flags and r.random() < 0.3:
             kw["sin"] = r.random() < 0.8
+            if kw["sin"] and r.random() < 0.35:
+                kw["phi"] = 1.5707963267948966          # sin(wt + 90 deg): the cosine-referenced phase is exactly 0
     elif kind == "complex_voltage_source":
         kw["V"] = _cx(r) * r.choice([1, 10])
     elif kind == "complex_current_source":
@@ -296,6 +298,17 @@ def plan(seed, overrides=None):
     for i in range(cfg["n_drawings"]):
         recipes[f"dr{i}"] = gen_drawing(rr, cfg["flags"])
         recipes[f"decl{i}"] = gen_declarative(rr)
+    if rr.random() < 0.5:
+        # the same declarative list once more, preceded by a wire (same labels at other coordinates)
+        import copy
+        n = cfg["n_drawings"]
+        base = copy.deepcopy(recipes["decl0"])
+        base.pop("alias", None)
+        els = base["v"].get("elements", [])
+        els.insert(0, {"type": "line", "direction": rr.choice(["right", "up"]), "length": rr.choice([1, 2])})
+        recipes[f"decl{n}"] = base
+        recipes[f"dr{n}"] = recipes["dr0"]
+        cfg["n_drawings"] = n + 1
     if rr.random() < 0.45:
         # a cursor-style chain and its shifted sibling: identical elements at other absolute positions
         a, b = gen_chain_drawing(rr, cfg["flags"])
